@@ -28,6 +28,7 @@ def recheck(name, checks):
     rc, out = sh(["git", "-C", "/repo", "worktree", "add", "--detach", wt, "HEAD"])
     assert rc == 0, out
     saved = {}
+    gen_saved = save_gen()
     try:
         rc, out = sh(["git", "apply", os.path.join(d, "patch.diff")], cwd=wt)
         if rc != 0:
@@ -56,7 +57,22 @@ def recheck(name, checks):
         json.dump(meta, open(os.path.join(d, "meta.json"), "w"), indent=1)
     finally:
         for ev, txt in saved.items(): open(ev, "w").write(txt)
+        restore_gen(gen_saved)
         sh(["git", "-C", "/repo", "worktree", "remove", "--force", wt])
+
+
+def save_gen():
+    """generated Lean facts are rewritten from the patched tree by the checks run here: keep the /repo versions"""
+    import glob
+    return {f: open(f).read() for f in glob.glob(os.path.join(ROOT, "lean", "MtxVerif", "Gen", "*.lean"))}
+
+
+def restore_gen(saved):
+    for f, txt in saved.items():
+        try:
+            if open(f).read() != txt: open(f, "w").write(txt)
+        except FileNotFoundError:
+            open(f, "w").write(txt)
 
 
 def main():
